@@ -32,7 +32,7 @@ INTERNAL = ('number eof error mark name null unknown compare register literal_st
             'time_pattern').split()
 ODD = ['"abc', '@', '$', '\\', 'é', '12abc', '1.2.3', 'H', 'S', 'B', 'K', 'IF', 'Define', '_', '\t']
 VOCAB = KEYWORDS + REGISTERS + MARKS + COMPARES + VALUES + INTERNAL + ODD
-CORE = ['all', 'and', 'begin', 'end', 'define', 'if', 'else', 'repeat', 'break', 'return', 'with', 'as',
+CORE = ['^', 'all', 'and', 'begin', 'end', 'define', 'if', 'else', 'repeat', 'break', 'return', 'with', 'as',
         'hue', 'time', 'at', 'set', 'on', 'print', 'printf', '{', '}', '[', ']', '(', ')', '-', '+', '<',
         '5', '"a"', 'x', 'f', 'm', '8:00', 'eof', 'number', '"abc', 'zone', 'row', 'stage']
 PRELUDE = 'assign x 1 define m 5 define f with p begin print p end '
@@ -205,6 +205,32 @@ def _part_c(rank, n, thorough):
     return t.dump()
 
 
+def expression_texts():
+    """(e) expression-shaped texts: every pair of operators between three operands, with parentheses, a leading
+    minus, a missing operand -- well-formed ones must compile and run, the rest must be rejected; all must finish."""
+    ops = ['^', '*', '/', '%', '+', '-', '<', '<=', '>', '>=', '==', '!=', 'and', 'or', 'not', '=', '&&', '**']
+    for a, b in itertools.product(ops, repeat=2):
+        yield 'assign q { 2 %s 3 %s 2 }' % (a, b)
+        yield 'assign q { ( 2 %s 3 ) %s 2 }' % (a, b)
+        yield 'assign q { 2 %s ( 3 %s 2 ) }' % (a, b)
+        yield 'assign q { - 2 %s - 3 %s - 2 }' % (a, b)
+        yield 'assign q { 2 %s %s 2 }' % (a, b)
+        yield 'if { x %s 3 %s [ f 2 ] } on all' % (a, b)
+    for a, b, c in itertools.product(['*', '-', '/', '<', 'and'], repeat=3):     # no ^ towers: 2^3^2^5 is astronomically large
+        yield 'assign q { 2 %s 3 %s 2 %s 5 }' % (a, b, c)
+
+
+def _part_e(rank, n):
+    w = world.World(world.POP_MIXED)
+    t = Tally()
+    for i, text in enumerate(expression_texts()):
+        if i % n != rank:
+            continue
+        text = PRELUDE + text
+        t.add(text, *judge(w, text))
+    return t.dump()
+
+
 def rule_breakers():
     ctxs = [('top', '%s'), ('if', 'if 1 begin %s end'), ('loop', 'repeat 2 begin %s end'),
             ('routine', 'define r begin %s end r'), ('else', 'if 0 print 1 else begin %s end')]
@@ -290,6 +316,7 @@ def run(tier, seed):
             seeds.append((name, toks))
     parts['b:mutations'] = _merge(par.run(_part_b, (seeds, VOCAB if thorough else CORE)))
     parts['c:characters'] = _merge(par.run(_part_c, (thorough,)))
+    parts['e:expressions'] = _merge(par.run(_part_e, ()))
     t = Tally()
     for tag, text in rule_breakers():
         outcome, kind, detail = judge(w, text, must_reject=True)
